@@ -66,7 +66,7 @@ def gen_class(rnd: random.Random, n: int):
                 if seen_var:
                     continue
                 seen_var = True
-            pname = rnd.choice([p for p in ["count", "text", "ratio", "deep", "items", "target", "extra", "mode", "key", "value_in"] if p not in used])
+            pname = rnd.choice([p for p in ["count", "text", "ratio", "deep", "items", "target", "extra", "mode", "key", "value_in", "s", "f", "el", "hot", "lf"] if p not in used])
             used.add(pname)
             params.append((pname, k))
         # python signature order: required positionals, optional positionals, *args, keyword-only
@@ -326,7 +326,8 @@ async def one(seed: int):
         m, call = c
         exp = await direct(twin, m, call)
         if rep != exp + "\n":
-            v(["C17"], f"reply to {line!r} is {rep[:80]!r}, the direct call gives {exp[:80]!r}")
+            # a well-formed command that the parser itself refuses means the command is not really available (C16 as well)
+            v(["C17", "C16"] if rep.startswith("usage:") else ["C17"], f"reply to {line!r} is {rep[:80]!r}, the direct call gives {exp[:80]!r}")
     eff_a, eff_b = pool.calls + ns_a["CALLS"], twin.calls + ns_b["CALLS"]
     if crashed is None and eff_a != eff_b:
         k0 = next((i for i, (a, b) in enumerate(zip(eff_a, eff_b)) if a != b), min(len(eff_a), len(eff_b)))
